@@ -47,11 +47,41 @@ def grammar_ok(s: str) -> bool:
 
 
 def exact_value(s: str):
-    body = s.strip().lower().replace("d", "e")
+    """exact rational value of a string of the grammar (manual digit arithmetic: no float(), no regular expressions)"""
+    body = s.strip().lower()
     imag = body.endswith("j")
     if imag:
         body = body[:-1]
-    return Fraction(body), imag
+    neg = False
+    i = 0
+    if body[i] in "+-":
+        neg = body[i] == "-"
+        i += 1
+    mant = 0
+    scale = 0
+    seen_dot = False
+    while i < len(body) and (body[i] in DIGITS or body[i] == "."):
+        if body[i] == ".":
+            seen_dot = True
+        else:
+            mant = mant * 10 + (ord(body[i]) - 48)
+            if seen_dot:
+                scale += 1
+        i += 1
+    exp = 0
+    if i < len(body) and body[i] in "ed":
+        i += 1
+        eneg = False
+        if body[i] in "+-":
+            eneg = body[i] == "-"
+            i += 1
+        while i < len(body):
+            exp = exp * 10 + (ord(body[i]) - 48)
+            i += 1
+        if eneg:
+            exp = -exp
+    val = Fraction(mant) * (Fraction(10) ** (exp - scale))
+    return (-val if neg else val), imag
 
 
 def exact_check(s: str) -> str:
@@ -81,3 +111,28 @@ def parse_ok(s: str) -> bool:
     post: __return__
     """
     return exact_check(s) == ""
+
+
+EXEMPLARS = ["5", "0.5", "5.0", "0.0", ".5", "5.", "1e3", "-0.18e-2", "+12.25", "1.5d2", "1.5D-2", "12.25e1", "007.50", "0e5",
+             "0.5j", "5j", "0.0j", "-2.5e1j", "9876543210.0123456789", "98765432109876.543210123456789e-4", "  3.25 "]
+
+
+def from_string_check(s: str) -> str:
+    """'' if Phase.from_string(s) meets the property (exact rational comparison), else a description"""
+    from pulsarbat.pulsar.phase import Phase
+    import numpy as np
+    try:
+        p = Phase.from_string(s)
+    except Exception as e:
+        return f"from_string raises {type(e).__name__}: {e}"
+    want, imag = exact_value(s)
+    if bool(p.imaginary) != imag:
+        return f"imaginary flag {p.imaginary} for a string that {'ends' if imag else 'does not end'} in j"
+    v = p.view(np.ndarray)
+    ci, cf = float(v["int"]), float(v["frac"])
+    if ci != int(ci) or abs(cf) > 0.5:
+        return f"result not normalised: ({ci}, {cf})"
+    got = Fraction(ci) + Fraction(cf)
+    if abs(got - want) > Fraction(1, 2**52) * max(1, abs(want)):
+        return f"value {float(got)!r} for a string denoting {float(want)!r}"
+    return ""
